@@ -69,7 +69,30 @@ func New(id, tier, level string, budget time.Duration) *Report {
 
 // Deadline is the internal time budget of the check as unix nanos: a run that
 // reaches it stops exploring, reports exhaustive:false and still exits 0.
-func (r *Report) Deadline() int64 { return r.deadline.UnixNano() }
+func (r *Report) Deadline() int64 {
+	if os.Getenv("VERIF_FAILFAST") != "" && r.hasNewViolation() {
+		// development aid (mutant sweeps): once a violation that is not a known finding has been found the remaining
+		// explorations are cut short; the run is then reported as not exhaustive. Registered commands never set this.
+		return time.Now().Add(-time.Second).UnixNano()
+	}
+	return r.deadline.UnixNano()
+}
+
+func (r *Report) hasNewViolation() bool {
+	kn := loadKnown()
+	for _, v := range r.Viol {
+		isKnown := false
+		for _, k := range kn {
+			if k.Status == "finding" && k.Property == r.ID && k.Clause == v.Clause && k.Signature == v.Sig {
+				isKnown = true
+			}
+		}
+		if !isKnown {
+			return true
+		}
+	}
+	return false
+}
 
 func (r *Report) TimeLeft() time.Duration { return time.Until(r.deadline) }
 
